@@ -117,3 +117,251 @@ def mutate_bytes(rng, b, interesting=(0x00, 0x17, 0x18, 0x19, 0x1a, 0x1b, 0x1c, 
     if r < 0.9:
         return b[:i]
     return b + bytes([rng.choice(interesting)])
+
+
+# ---------------------------------------------------------------- MessagePack ---------------------------------------------------
+
+def mp_encode(v, rng=None, minimal=True):
+    pick = (lambda opts: opts[0]) if (minimal or rng is None) else (lambda opts: rng.choice(opts) if rng.random() < 0.5 else opts[0])
+    if v is None:
+        return b"\xc0"
+    if v is True:
+        return b"\xc3"
+    if v is False:
+        return b"\xc2"
+    if isinstance(v, int):
+        forms = []
+        if 0 <= v <= 0x7f:
+            forms.append(bytes([v]))
+        if -32 <= v < 0:
+            forms.append(bytes([v + 256]))
+        if v >= 0:
+            for code, w in ((0xcc, 1), (0xcd, 2), (0xce, 4), (0xcf, 8)):
+                if v < 256 ** w:
+                    forms.append(bytes([code]) + v.to_bytes(w, "big"))
+        for code, w in ((0xd0, 1), (0xd1, 2), (0xd2, 4), (0xd3, 8)):
+            if -(1 << (8 * w - 1)) <= v < (1 << (8 * w - 1)):
+                forms.append(bytes([code]) + v.to_bytes(w, "big", signed=True))
+        return pick(forms)
+    if isinstance(v, tuple) and v[0] == "d":
+        return b"\xcb" + v[1].to_bytes(8, "big")
+    if isinstance(v, tuple) and v[0] == "f32":
+        return b"\xca" + v[1].to_bytes(4, "big")
+    if isinstance(v, bytes):
+        n = len(v)
+        forms = []
+        if n < 32:
+            forms.append(bytes([0xa0 + n]) + v)
+        if n < 256:
+            forms.append(b"\xd9" + bytes([n]) + v)
+        if n < 65536:
+            forms.append(b"\xda" + n.to_bytes(2, "big") + v)
+        forms.append(b"\xdb" + n.to_bytes(4, "big") + v)
+        return pick(forms)
+    if isinstance(v, tuple) and v[0] == "b":
+        n = len(v[1])
+        forms = []
+        if n < 256:
+            forms.append(b"\xc4" + bytes([n]) + v[1])
+        if n < 65536:
+            forms.append(b"\xc5" + n.to_bytes(2, "big") + v[1])
+        forms.append(b"\xc6" + n.to_bytes(4, "big") + v[1])
+        return pick(forms)
+    if isinstance(v, list):
+        n = len(v)
+        body = b"".join(mp_encode(x, rng, minimal) for x in v)
+        forms = []
+        if n < 16:
+            forms.append(bytes([0x90 + n]))
+        if n < 65536:
+            forms.append(b"\xdc" + n.to_bytes(2, "big"))
+        forms.append(b"\xdd" + n.to_bytes(4, "big"))
+        return pick(forms) + body
+    if isinstance(v, Obj):
+        n = len(v.members)
+        body = b"".join(mp_encode(k, rng, minimal) + mp_encode(x, rng, minimal) for k, x in v.members)
+        forms = []
+        if n < 16:
+            forms.append(bytes([0x80 + n]))
+        if n < 65536:
+            forms.append(b"\xde" + n.to_bytes(2, "big"))
+        forms.append(b"\xdf" + n.to_bytes(4, "big"))
+        return pick(forms) + body
+    if isinstance(v, Tagged):
+        return mp_encode(v.value, rng, minimal)
+    raise TypeError(v)
+
+
+# ---------------------------------------------------------------- UBJSON (draft 12) ----------------------------------------------
+
+def ub_int(v, rng=None, minimal=True):
+    forms = []
+    for m, w, signed in ((b"i", 1, True), (b"U", 1, False), (b"I", 2, True), (b"l", 4, True), (b"L", 8, True)):
+        lo, hi = (-(1 << (8 * w - 1)), (1 << (8 * w - 1)) - 1) if signed else (0, 255)
+        if lo <= v <= hi:
+            forms.append(m + v.to_bytes(w, "big", signed=signed))
+    if not forms:
+        raise OverflowError(v)
+    if minimal or rng is None or rng.random() < 0.5:
+        return forms[0]
+    return rng.choice(forms)
+
+
+def ub_encode(v, rng=None, minimal=True):
+    if v is None:
+        return b"Z"
+    if v is True:
+        return b"T"
+    if v is False:
+        return b"F"
+    if isinstance(v, int):
+        return ub_int(v, rng, minimal)
+    if isinstance(v, tuple) and v[0] == "d":
+        return b"D" + v[1].to_bytes(8, "big")
+    if isinstance(v, tuple) and v[0] == "f32":
+        return b"d" + v[1].to_bytes(4, "big")
+    if isinstance(v, bytes):
+        if len(v) == 1 and v[0] < 128 and rng is not None and not minimal and rng.random() < 0.3:
+            return b"C" + v
+        return b"S" + ub_int(len(v), rng, minimal) + v
+    if isinstance(v, tuple) and v[0] == "b":
+        return b"[$U#" + ub_int(len(v[1]), rng, minimal) + v[1]
+    noop = lambda: b"N" if (rng is not None and not minimal and rng.random() < 0.1) else b""
+    if isinstance(v, list):
+        r = rng.random() if (rng is not None and not minimal) else 1.0
+        if r < 0.25:
+            return b"[#" + ub_int(len(v), rng, minimal) + b"".join(ub_encode(x, rng, minimal) for x in v)
+        if r < 0.4 and v and all(isinstance(x, int) and not isinstance(x, bool) and -128 <= x <= 127 for x in v):
+            return b"[$i#" + ub_int(len(v), rng, minimal) + b"".join(x.to_bytes(1, "big", signed=True) for x in v)
+        if r < 0.6 and v and all(isinstance(x, list) for x in v):
+            return b"[$[#" + ub_int(len(v), rng, minimal) + b"".join(ub_encode(x, rng, minimal)[1:] for x in v)
+        if r < 0.6 and v and all(isinstance(x, Obj) for x in v):
+            return b"[${#" + ub_int(len(v), rng, minimal) + b"".join(ub_encode(x, rng, minimal)[1:] for x in v)
+        if r < 0.45 and v and all(x is None for x in v):
+            return b"[$Z#" + ub_int(len(v), rng, minimal)
+        return b"[" + b"".join(noop() + ub_encode(x, rng, minimal) for x in v) + noop() + b"]"
+    if isinstance(v, Obj):
+        key = lambda k: ub_int(len(k), rng, minimal) + k
+        r = rng.random() if (rng is not None and not minimal) else 1.0
+        if r < 0.25:
+            return b"{#" + ub_int(len(v.members), rng, minimal) + b"".join(key(k) + ub_encode(x, rng, minimal) for k, x in v.members)
+        if r < 0.6 and v.members and all(isinstance(x, list) for _, x in v.members):
+            # a typed object whose values are arrays: after the `[` type marker each value is an array body
+            return b"{$[#" + ub_int(len(v.members), rng, minimal) + b"".join(key(k) + ub_encode(x, rng, minimal)[1:] for k, x in v.members)
+        if r < 0.6 and v.members and all(isinstance(x, Obj) for _, x in v.members):
+            return b"{${#" + ub_int(len(v.members), rng, minimal) + b"".join(key(k) + ub_encode(x, rng, minimal)[1:] for k, x in v.members)
+        if r < 0.5 and v.members and all(isinstance(x, int) and not isinstance(x, bool) and 0 <= x <= 255 for _, x in v.members):
+            return b"{$U#" + ub_int(len(v.members), rng, minimal) + b"".join(key(k) + bytes([x]) for k, x in v.members)
+        return b"{" + b"".join(key(k) + ub_encode(x, rng, minimal) for k, x in v.members) + b"}"
+    if isinstance(v, Tagged):
+        return ub_encode(v.value, rng, minimal)
+    raise TypeError(v)
+
+
+# ---------------------------------------------------------------- BSON 1.1 -------------------------------------------------------
+
+def bson_element(name, v, rng=None):
+    nm = name + b"\x00"
+    if v is None:
+        return b"\x0a" + nm
+    if v is True or v is False:
+        return b"\x08" + nm + (b"\x01" if v else b"\x00")
+    if isinstance(v, int):
+        if -2 ** 31 <= v < 2 ** 31 and (rng is None or rng.random() < 0.7):
+            return b"\x10" + nm + v.to_bytes(4, "little", signed=True)
+        return b"\x12" + nm + v.to_bytes(8, "little", signed=True)
+    if isinstance(v, tuple) and v[0] == "d":
+        return b"\x01" + nm + v[1].to_bytes(8, "little")
+    if isinstance(v, bytes):
+        return b"\x02" + nm + (len(v) + 1).to_bytes(4, "little") + v + b"\x00"
+    if isinstance(v, list):
+        return b"\x04" + nm + bson_document([(str(i).encode(), x) for i, x in enumerate(v)], rng)
+    if isinstance(v, Obj):
+        return b"\x03" + nm + bson_document(v.members, rng)
+    if isinstance(v, Tagged) and v.tag == "epoch_milli":
+        return b"\x09" + nm + v.value.to_bytes(8, "little", signed=True)
+    if isinstance(v, Tagged):
+        return bson_element(name, v.value, rng)
+    raise TypeError(v)
+
+
+def bson_document(members, rng=None):
+    body = b"".join(bson_element(k, x, rng) for k, x in members) + b"\x00"
+    return (len(body) + 4).to_bytes(4, "little") + body
+
+
+def bson_encode(v, rng=None, minimal=True):
+    if not isinstance(v, Obj):
+        v = Obj([(b"v", v)])
+    return bson_document(v.members, rng)
+
+
+# a small BSON walker used only to classify *why* an input is ill-formed (for the known-findings signatures)
+class _Ill(Exception):
+    pass
+
+
+def bson_walk(data, lenient_bool=False, lenient_strterm=False):
+    """raises _Ill if the input is not well-formed BSON (core types) under the given leniencies; returns leniencies used"""
+    used = set()
+
+    def doc(b, pos):
+        if pos + 4 > len(b):
+            raise _Ill()
+        size = int.from_bytes(b[pos:pos + 4], "little")
+        if size < 5 or pos + size > len(b):
+            raise _Ill()
+        end = pos + size
+        p = pos + 4
+        while True:
+            if p >= end:
+                raise _Ill()
+            t = b[p]
+            p += 1
+            if t == 0:
+                if p != end:
+                    raise _Ill()
+                return end
+            z = b.find(b"\x00", p, end)
+            if z < 0:
+                raise _Ill()
+            p = z + 1
+            if t == 0x01 or t == 0x09 or t == 0x12 or t == 0x11:
+                p += 8
+            elif t == 0x10:
+                p += 4
+            elif t == 0x0A:
+                pass
+            elif t == 0x08:
+                if p >= end:
+                    raise _Ill()
+                if b[p] not in (0, 1):
+                    if not lenient_bool:
+                        raise _Ill()
+                    used.add("bool")
+                p += 1
+            elif t in (0x02, 0x0D, 0x0E):
+                if p + 4 > end:
+                    raise _Ill()
+                n = int.from_bytes(b[p:p + 4], "little")
+                p += 4
+                if n < 1 or p + n > end:
+                    raise _Ill()
+                if b[p + n - 1] != 0:
+                    if not lenient_strterm:
+                        raise _Ill()
+                    used.add("strterm")
+                try:
+                    b[p:p + n - 1].decode("utf-8")
+                except UnicodeDecodeError:
+                    raise _Ill()
+                p += n
+            elif t in (0x03, 0x04):
+                p = doc(b, p)
+            else:
+                raise _Ill()
+            if p > end:
+                raise _Ill()
+
+    doc(data, 0)
+    return used
